@@ -4,7 +4,13 @@ Runtime monitor: drv_containers (ASan+UBSan build, fault hook H1) runs random op
 ArenaVector/ArenaHash/ArenaTree/ArenaList/ArenaBitSet/bit_vector_* primitives/ArenaPool/ArenaString/String and raw
 arena blocks on ONE Arena, compares every container with its std:: model after every step, walks the structural
 invariants and keeps a live-block interval map. This module shards the scripts, restarts a shard behind a script that
-died under a sanitizer, merges what the monitors saw and turns it into a verdict."""
+died under a sanitizer, merges what the monitors saw and turns it into a verdict.
+
+Round 11 additions (all in the same driver): operations whose argument is the container itself, move construction of hash/tree/
+list, impossible sizes for Arena/ArenaBitSet/String (overflow guards and sizes that malloc itself refuses), bit primitives on
+32-bit words and the BitOps span helpers, directed scripts above Globals::kGrowThreshold and over the hash prime table
+(--directed 1 on a spread of shards), and shards whose allocator refuses everything above 1 MiB (--real-oom 1). Every
+dimension has a measured counter with a floor: a run in which one of them observed nothing is inconclusive (exit 2)."""
 import json
 import re
 
@@ -30,9 +36,29 @@ def make_jobs(tier, seed, scale):
     for scripts, max_ops in plan:
         jobs.append(["--mode", "random", "--scripts", str(scripts), "--max-ops", str(max_ops),
                      "--seed", str(rng.next() % (1 << 40))])
+    # shards whose allocator refuses every malloc above 1 MiB (see child_env): long scripts, so that the arena wants blocks
+    # of that size and malloc really returns null inside Arena::_alloc_oneshot/_alloc_reusable on the ordinary paths
+    real = [(int(12 * scale) or 1, 10000)] * 8 if tier == "quick" else [(int(40 * scale) or 1, 10000)] * 24
+    for scripts, max_ops in real:
+        jobs.append(["--mode", "random", "--scripts", str(scripts), "--max-ops", str(max_ops),
+                     "--seed", str(rng.next() % (1 << 40)), "--real-oom", "1"])
     # longest first so that the tail of the pool is short
     jobs.sort(key=lambda a: -int(a[3]) * int(a[5]))
+    # directed scripts (containers above Globals::kGrowThreshold, hash prime table up to 10^6..10^7 buckets) ride on a spread of the
+    # shards: each costs ~100-300 MB and ~1 s, so 16 (quick) / 32 (thorough) of them with different seeds
+    want = 16 if tier == "quick" else 32
+    plain = [j for j in jobs if "--real-oom" not in j]
+    step = max(1, len(plain) // want)
+    for i in range(len(plain) - 1, -1, -step):
+        plain[i] += ["--directed", "1", "--prime-max", "42" if tier == "quick" else "48"]
     return jobs
+
+
+def child_env(argv):
+    """Environment of one shard: the --real-oom shards get an allocator limit of 1 MiB on top of the common sanitizer options."""
+    if "--real-oom" not in argv:
+        return None
+    return {"ASAN_OPTIONS": common.SAN_ENV["ASAN_OPTIONS"] + ":max_allocation_size_mb=1"}
 
 
 def sanitizer_key(rep):
@@ -75,7 +101,7 @@ def run(tier, args):
         results, crashes = [], []
         cur = list(argv)
         for _ in range(MAX_RESTARTS):
-            rc, out, err = common.run_child([exe] + cur, timeout=3000)
+            rc, out, err = common.run_child([exe] + cur, timeout=3000, env=child_env(cur))
             rep = common.sanitizer_report(err)
             res = None
             try:
@@ -101,6 +127,7 @@ def run(tier, args):
                 "arena_requests", "resets_soft", "resets_hard", "reuse_observed", "static_arenas", "skip_events", "stamp_bytes",
                 "huge_rejected", "sso_to_heap", "fmt_exact_fit"]
     tot = {k: 0 for k in ctr_keys}
+    extra = {}
     mx = {"max_blocks": 0, "max_live_blocks": 0}
     fam, names = {}, {}
     distinct = set()
@@ -127,6 +154,8 @@ def run(tier, args):
                 mx[k] = max(mx[k], res[k])
             for k, v in res["ops_by_family"].items():
                 fam[k] = fam.get(k, 0) + v
+            for k, v in res.get("extra", {}).items():
+                extra[k] = max(extra.get(k, 0), v) if k == "prime_indices" else extra.get(k, 0) + v
             for k, v in res["ops_by_name"].items():
                 names[k] = names.get(k, 0) + v
             distinct.update(res["distinct"])
@@ -160,6 +189,36 @@ def run(tier, args):
         "live_block_stamp_bytes_verified": tot["stamp_bytes"],
         "string_small_to_heap_transitions": tot["sso_to_heap"],
         "string_format_exact_fit_cases": tot["fmt_exact_fit"],
+        # round 11 dimensions
+        "self_aliased_string_ops": extra.get("self_alias_string", 0),            # s.append(s) / s.assign(s) / s.assign(s.data()+k, n)
+        "self_aliased_string_appends_that_must_grow": extra.get("self_alias_string_grow", 0),
+        "self_aliased_vector_ops": extra.get("self_alias_vector", 0),            # concat / concat_unchecked / assign_unchecked with itself
+        "self_aliased_bitset_ops": extra.get("self_alias_bitset", 0),            # and_/and_not/or_/copy_from with itself
+        "self_swaps": extra.get("self_swaps", 0),
+        "operations_probed_in_forked_child": extra.get("child_probes", 0),
+        "forked_probes_ended_by_sanitizer": extra.get("child_probe_deaths", 0),
+        "hash_move_constructions": extra.get("moves_hash", 0),
+        "hash_move_constructions_with_embedded_bucket": extra.get("moves_hash_embedded", 0),
+        "tree_move_constructions": extra.get("moves_tree", 0),
+        "list_move_constructions": extra.get("moves_list", 0),
+        "impossible_size_requests_rejected_arena": extra.get("huge_arena", 0),
+        "impossible_size_requests_rejected_bitset": extra.get("huge_bitset", 0),
+        "impossible_size_requests_rejected_string": extra.get("huge_string", 0),
+        "requests_refused_by_malloc_itself": extra.get("malloc_refused", 0),     # sizes of 2^41..2^63 bytes: past the guards, malloc says no
+        "arena_requests_refused_by_malloc_with_retained_blocks": extra.get("malloc_refused_after_soft_reset", 0),
+        "vector_growths_above_grow_threshold": extra.get("big_vec_growths", 0),
+        "string_growths_above_grow_threshold": extra.get("big_string_growths", 0),
+        "bitset_growths_above_grow_threshold": extra.get("big_bitset_growths", 0),
+        "bytes_verified_in_containers_above_grow_threshold": extra.get("big_bytes_verified", 0),
+        "bitops_span_helper_calls": extra.get("bitops_calls", 0),
+        "bit_primitive_ops_on_32bit_words": extra.get("bitvec32_ops", 0),
+        "bit_word_iterator_runs": extra.get("bitword_iter", 0),
+        "scripts_run_with_1MiB_malloc_limit": extra.get("real_oom_scripts", 0),
+        "real_malloc_failures_inside_arena_reported_cleanly": extra.get("real_oom_failures", 0),
+        "hash_prime_indices_evaluated": extra.get("prime_indices", 0),
+        "hash_bucket_index_range_checks": extra.get("calc_mod_checks", 0),
+        "hash_growths_triggered_by_insert": extra.get("natural_rehashes", 0),
+        "small_api_checks": extra.get("small_api_checks", 0),
         "max_managed_blocks": mx["max_blocks"],
         "max_live_blocks_in_interval_map": mx["max_live_blocks"],
         "distinct_scripts_all": distinct_all,
@@ -167,16 +226,41 @@ def run(tier, args):
         "exhaustive": False,
         "shards": len(jobs),
     })
+    if not args.replay:
+        # every dimension must have been observed, otherwise the run says nothing about it: inconclusive, not "held"
+        floors = ["self_alias_string", "self_alias_string_grow", "self_alias_vector", "self_alias_bitset", "self_swaps", "child_probes",
+                  "moves_hash", "moves_hash_embedded", "moves_tree", "moves_list", "huge_arena", "huge_bitset", "huge_string",
+                  "malloc_refused", "malloc_refused_after_soft_reset", "big_vec_growths", "big_string_growths", "big_bitset_growths",
+                  "bitops_calls", "bitvec32_ops", "bitword_iter", "prime_indices", "calc_mod_checks", "natural_rehashes", "small_api_checks", "real_oom_scripts", "real_oom_failures"]
+        dead = [k for k in floors if not extra.get(k)]
+        if dead and not chk.violations:
+            raise common.HarnessError("dimension(s) never observed in this run: %s" % ", ".join(dead))
     chk.assumptions += [
-        "ASan/UBSan instrumented static build of /repo's working tree with -DASMJIT_VERIF; allocation failures are injected only "
-        "through hook H1 (asmjit_verif_arena_fail_fn); String uses malloc directly, so only its overflow guards are exercised",
+        "ASan/UBSan instrumented static build of /repo's working tree with -DASMJIT_VERIF; allocation failures come from three "
+        "sources: hook H1 (asmjit_verif_arena_fail_fn, refuses at the front door), requests of 2^41..2^63 bytes that ASan's malloc "
+        "refuses by itself (allocator_may_return_null=1; reaches the code behind the guards in Arena and String), and the "
+        "--real-oom shards whose allocator refuses everything above 1 MiB (max_allocation_size_mb=1: Arena only, String stays small)",
+        "an operation whose argument is the container itself (s.append(s), s.assign(s), s.assign(s.data()+k,n), v.concat(v), "
+        "b.and_not(b), x.swap(x), ...) must give what the textbook type gives; String's self-aliased calls run in a forked copy of "
+        "the driver first so that a sanitizer abort is reported once (key string:<op>-self:<asan class>) without losing the shard",
+        "moved-from objects are not judged (only ArenaVector and String promise an empty source and are checked for it); the "
+        "move-constructed object must hold the content after the source object's storage has been overwritten",
+        "ArenaVector::operator=(ArenaVector&&), ArenaHash(ArenaHash&&) and BitOps::set_bit/clear_bit/or_bit/xor_bit cannot be "
+        "instantiated (compile errors in the headers), so they cannot be driven; the hash move path is driven through "
+        "ArenaHashBase(ArenaHashBase&&)",
+        "hash bucket growth on insert is a performance matter: it is measured (coverage floor), not judged; for the prime table "
+        "the oracle is _calc_mod(h) < bucket count (equivalent to h % count for a reciprocal) for prime indices 0..42 (quick) / "
+        "0..48 (thorough); higher indices would need > 100 MB bucket arrays and are not reached",
+        "a conversion failure inside vsnprintf (%ls with a wide character that has no multibyte form in the C locale) must be "
+        "reported; a failed append must keep the content, a failed assign may keep it or leave the empty string",
         "the integer-formatting oracle encodes: sign, then '0'/'0x' prefix (kAlternate), then zero padding to `width` digits "
         "(width clamped to 256), then upper-case digits; bases other than 0/2/8/10/16 must be refused",
         "ArenaHash may hold duplicate keys: get() may return any node stored under the key; a refused rehash is tolerated (the "
         "table only degrades) as the source documents",
         "freed arena blocks are recognised through ASan's poisoning (quarantine keeps them poisoned); after reporting a dangling "
         "block link the harness repairs the link to keep exploring the rest of the script",
-        "requests of >= 2^32 elements / near SIZE_MAX bytes are only issued where an overflow guard must refuse them; bit sets "
-        "of >= 2^32 bits are not attempted (512 MiB per try)",
+        "requests of >= 2^32 elements / near SIZE_MAX bytes are only issued where an overflow guard or the allocator must refuse "
+        "them; bit sets of 2^32..2^44 bits are not attempted (no guard of its own for the 32-bit size field, memory would be real); "
+        "Arena::dup(data, huge) is not attempted (the caller would have to own that many bytes)",
     ]
     return chk.finish()
